@@ -243,6 +243,7 @@ func (c *Check) finish(def *PropDef, known *KnownFile, outDir string, wall float
 		"build_tags":           c.P.Tags,
 		"exhaustive":           false,
 		"known_findings_shown": knownLines,
+		"helper_normalisation": c.P.Norm,
 	}
 	for k, v := range extra {
 		cov[k] = v
